@@ -12,7 +12,7 @@ NOT_APPLICABLE["C13"] = (
 
 PROPS = {
     "C09": {
-        "rules": ["TRAV@C09", "TRAVBASE", "PARCHECK", "BACKPIPE", "PAREMIT", "PREDSPEC", "CTXSHAPE", "ENVSHADOW", "VERDICT", "FIELDS", "EXH"],
+        "rules": ["TRAV@C09", "TRAVBASE", "PARCHECK", "BACKPIPE", "PAREMIT", "PREDSPEC", "CTXSHAPE", "ENVSHADOW", "VERDICT", "EFFORDER", "LOCSETS", "FIELDS", "EXH"],
         "thorough": [],
         "technique": "static analysis: per-constructor path simulation of visitor overrides (traversal completeness) + pipeline def-use",
         "level_text": "Structural clauses only: every Par loop at any nesting depth reaches Check_ParallelizeLoop before code generation "
@@ -136,7 +136,7 @@ PROPS = {
         "design_ref": "DESIGN.md §3.5, §3.16, §4 C05",
     },
     "C10": {
-        "rules": ["CFGMOD", "EQVGATE", "CFGSHAPE", "EQVSHAPE", "ENVSHADOW", "CONDSPEC", "VERDICT"],
+        "rules": ["CFGMOD", "EQVGATE", "CFGSHAPE", "EQVSHAPE", "ENVSHADOW", "CONDSPEC", "EFFORDER", "LOCSETS", "VERDICT"],
         "thorough": [],
         "technique": "static analysis: must-call + def-use threading of the changed-field set from the check to the recorded derivation; dominance of the equivalence gate over the callee swap",
         "level_text": "Structural clauses: every primitive that inserts or deletes a configuration write or swaps a callee obtains the possibly-changed field set from "
@@ -216,7 +216,7 @@ PROPS = {
         "design_ref": "DESIGN.md §3.12, §4 C06",
     },
     "C01": {
-        "rules": ["GUARD", "CONDSPEC", "PREDSPEC", "CHECKFORM", "FLOORENC", "CTXSHAPE", "ENVSHADOW", "EQVSHAPE", "ALIASCLOSED", "WINCOMPOSE", "STRIDEKNOWN", "ZIPLEN", "NAMECONF", "FIELDS", "VERDICT", "VERDICTUSE", "LAYER", "CHILDREN", "READKINDS", "EXH", "TRAV@C01", "TRAVBASE", "BYPASS"],
+        "rules": ["GUARD", "CONDSPEC", "PREDSPEC", "CHECKFORM", "FLOORENC", "EFFORDER", "LOCSETS", "CTXSHAPE", "ENVSHADOW", "EQVSHAPE", "ALIASCLOSED", "WINCOMPOSE", "STRIDEKNOWN", "ZIPLEN", "NAMECONF", "FIELDS", "VERDICT", "VERDICTUSE", "LAYER", "CHILDREN", "READKINDS", "EXH", "TRAV@C01", "TRAVBASE", "BYPASS"],
         "thorough": [],
         "technique": "static analysis: per-primitive obligation table decided by a must-analysis (dominance of side conditions over tree edits, with raising guards, flag assumptions and check-argument provenance), plus comparison/identity/verdict/layering/traversal rules",
         "level_text": "Structural clauses, decided for all programs and schedules from the source: every scheduling primitive reaches its tree edits only through the side conditions "
